@@ -1,4 +1,5 @@
 import DarkluaModel.C17.Lemmas
+import DarkluaModel.C17.Whole
 /-!
 # C17 — removal and injection rules change exactly what they name: property theorems
 
@@ -11,6 +12,11 @@ the targeted name holds the replacement (`assert` ↦ a value that, called, hand
 back; `debug.profilebegin` ↦ a value that, called, returns nothing; `NAME` ↦ the configured value).
 The "modified environment" is a hypothesis on what the variable lookup yields, so the theorems hold
 for any way of installing it (the harness installs it with a Lua prelude).
+
+After the `fix:` commits for F19 F30 F31 F32 the model follows the fixed code: `process_statement` /
+`process_expression` are loops (`processStatementLoop` / `processExpressionLoop`) over one round
+(`processStatementOnce` / `processExpressionOnce`); the per-round theorems below lift to the loops by
+`processStatementLoop_sound` / `processExpressionLoop_sound`.
 
 What is assumed rather than proved: arguments that darklua's `has_side_effects` declares free of
 side effects evaluate purely (`PureAt`; property C08's subject), and the identifier tracker agrees
@@ -28,6 +34,112 @@ theorem keeps_true : keeps .true = false := by simp [keeps, hasSideEffects]
 theorem keeps_str (b : List UInt8) : keeps (.str b) = false := by simp [keeps, hasSideEffects]
 theorem keeps_paren (e : Expr) : keeps (.paren e) = keeps e := by simp [keeps, hasSideEffects]
 
+theorem flagIf_mappings (st : St) (c : Bool) (f : String) : (st.flagIf c f).mappings = st.mappings := by
+  unfold St.flagIf St.flag
+  split
+  · split <;> rfl
+  · rfl
+
+theorem flagIf_scopes (st : St) (c : Bool) (f : String) : (st.flagIf c f).scopes = st.scopes := by
+  unfold St.flagIf St.flag
+  split
+  · split <;> rfl
+  · rfl
+
+/-! ## the loops of `process_statement` / `process_expression` (F30 fix)
+
+A round that is sound on every node of a class `Good` closed under rounds makes the whole loop sound. -/
+
+theorem processStatementLoop_sound (call : CallFn N) (ρ : ExtOracle N) (k : Nat) (env : Env N) (σ : State N)
+    (M : Matcher) (preserve : Bool) (Good : Stmt → Prop)
+    (hstep : ∀ s st, Good s → stmtMatched M st s = true →
+      execS call ρ k env (processStatementOnce M preserve s st).1 σ = execS call ρ k env s σ ∧
+      Good (processStatementOnce M preserve s st).1) :
+    ∀ n s st, Good s → execS call ρ k env (processStatementLoop M preserve n s st).1 σ = execS call ρ k env s σ := by
+  intro n
+  induction n with
+  | zero => intro s st _; rfl
+  | succ n ih =>
+    intro s st hg
+    unfold processStatementLoop
+    by_cases hm : stmtMatched M st s = true
+    · simp only [hm, if_true]
+      obtain ⟨h1, h2⟩ := hstep s st hg hm
+      rw [ih _ _ h2, h1]
+    · simp only [hm]
+      rfl
+
+theorem processExpressionLoop_sound (call : CallFn N) (ρ : ExtOracle N) (k : Nat) (env : Env N) (σ : State N)
+    (M : Matcher) (preserve : Bool) (Good : Expr → Prop)
+    (hstep : ∀ e st, Good e → exprMatched M st e = true →
+      evalE call ρ k env (processExpressionOnce M preserve e st).1 σ = evalE call ρ k env e σ ∧
+      Good (processExpressionOnce M preserve e st).1) :
+    ∀ n e st, Good e → evalE call ρ k env (processExpressionLoop M preserve n e st).1 σ = evalE call ρ k env e σ := by
+  intro n
+  induction n with
+  | zero => intro e st _; rfl
+  | succ n ih =>
+    intro e st hg
+    unfold processExpressionLoop
+    by_cases hm : exprMatched M st e = true
+    · simp only [hm, if_true]
+      obtain ⟨h1, h2⟩ := hstep e st hg hm
+      rw [ih _ _ h2, h1]
+    · simp only [hm]
+      rfl
+
+/-- a node that is not a matched call is left alone by the loops -/
+theorem processStatement_of_not_matched (M : Matcher) (preserve : Bool) (s : Stmt) (st : St)
+    (h : stmtMatched M st s = false) : processStatement M preserve s st = (s, st) := by
+  simp [processStatement, processStatementLoop, h]
+
+theorem processExpression_of_not_matched (M : Matcher) (preserve : Bool) (e : Expr) (st : St)
+    (h : exprMatched M st e = false) : processExpression M preserve e st = (e, st) := by
+  simp [processExpression, processExpressionLoop, h]
+
+/-- F31 fix: the statement a round produces never changes the environment of the statements that
+follow — it is a call statement or a `do` block, never a bare `local` -/
+theorem removed_call_keeps_env (call : CallFn N) (ρ : ExtOracle N) (k : Nat) (env env' : Env N) (σ σ' : State N)
+    (M : Matcher) (preserve : Bool) (s : Stmt) (st : St) (hm : stmtMatched M st s = true)
+    (h : execS call ρ k env (processStatementOnce M preserve s st).1 σ = .ok (.next env') σ') : env' = env := by
+  have key : ∀ t : Stmt, ((∃ c, t = .callStmt c) ∨ (∃ b, t = .doBlock b)) →
+      execS call ρ k env t σ = .ok (.next env') σ' → env' = env := by
+    intro t ht he
+    rcases ht with ⟨c, rfl⟩ | ⟨b, rfl⟩
+    · simp only [execS] at he
+      cases hc : evalE call ρ k env c σ with
+      | ok a σ1 => rw [hc] at he; simp only [bind_ok] at he; cases he; rfl
+      | err v σ1 => rw [hc] at he; cases he
+      | timeout => rw [hc] at he; cases he
+    · simp only [execS] at he
+      cases hc : execB call ρ k env b σ with
+      | ok a σ1 =>
+        rw [hc] at he
+        simp only [bind_ok] at he
+        cases a <;> simp at he <;> (try cases he) <;> simp_all
+      | err v σ1 => rw [hc] at he; cases he
+      | timeout => rw [hc] at he; cases he
+  apply key _ _ h
+  match s, hm with
+  | .callStmt (.call f none kind args), hm =>
+    simp only [stmtMatched] at hm
+    simp only [processStatementOnce, hm, if_true]
+    cases preserve
+    · exact Or.inr ⟨_, rfl⟩
+    · simp only [if_true]
+      rw [expressionsAsStatement_eq_wrap]
+      have hs := asStatements_shape (preserveArgumentsSideEffects kind args)
+      generalize asStatements (preserveArgumentsSideEffects kind args) = ss at hs
+      match ss, hs with
+      | [], _ => exact Or.inr ⟨_, rfl⟩
+      | [t], hs =>
+        have ht := hs t (List.mem_singleton.mpr rfl)
+        simp only [wrapStmts]
+        cases t <;> simp [isCallOrLocal] at ht
+        · exact Or.inl ⟨_, rfl⟩
+        · exact Or.inr ⟨_, rfl⟩
+      | _ :: _ :: _, _ => exact Or.inr ⟨_, rfl⟩
+
 /-! ## remove_assertions -/
 
 /-- STATEMENT position. `assert(args)` with `assert` not shadowed, when the variable `assert` holds a
@@ -43,11 +155,16 @@ theorem assert_refines (call : CallFn N) (ρ : ExtOracle N) (k : Nat) (env : Env
     (hdrop : ∀ e ∈ args, keeps e = false → PureAt call ρ k env e)
     (hcalls : ∀ e ∈ args, keeps e = true → isCall (getInner e) = true) :
     execS call ρ k env
-        (processStatement RemoveAssertions.matcher true (.callStmt (.call (.var "assert") none .tuple args)) st).1 σ
+        (processStatementOnce RemoveAssertions.matcher true (.callStmt (.call (.var "assert") none .tuple args)) st).1 σ
       = execS call ρ k env (.callStmt (.call (.var "assert") none .tuple args)) σ := by
   have hm : RemoveAssertions.matcher.matchesPrefix (isUsed st.scopes) (.var "assert") = true := by
     simp [RemoveAssertions.matcher, RemoveAssertions.matchesPrefix, hns]
-  simp only [processStatement, hm, if_true]
+  have hk : ∀ e ∈ preserveArgumentsSideEffects .tuple args, isCall (getInner e) = true := by
+    intro e he
+    simp only [preserveArgumentsSideEffects, argCandidates, List.mem_filter] at he
+    exact hcalls e he.1 he.2
+  simp only [processStatementOnce, hm, if_true]
+  rw [wrapLocal_calls _ hk]
   exact execS_removed_call call ρ k env (.var "assert") args (lookupVar env "assert" σ) id σ
     (by simp [evalE]) hret hdrop hcalls
 
@@ -57,13 +174,12 @@ theorem assert_refines_expr_one (call : CallFn N) (ρ : ExtOracle N) (k : Nat) (
     (hns : isUsed st.scopes "assert" = false)
     (hret : ∀ avs σ', evalEs call ρ k env [e] σ = .ok avs σ' →
       callVal call ρ k (lookupVar env "assert" σ) avs σ' = .ok avs σ') :
-    evalE call ρ k env (processExpression RemoveAssertions.matcher preserve (.call (.var "assert") none kind [e]) st).1 σ
+    evalE call ρ k env (processExpressionOnce RemoveAssertions.matcher preserve (.call (.var "assert") none kind [e]) st).1 σ
       = evalE call ρ k env (.call (.var "assert") none kind [e]) σ := by
   have hm : RemoveAssertions.matcher.matchesPrefix (isUsed st.scopes) (.var "assert") = true := by
     simp [RemoveAssertions.matcher, RemoveAssertions.matchesPrefix, hns]
-  simp only [processExpression, hm, if_true]
-  have hc : RemoveAssertions.matcher.computeResult kind [e] (reserveGlobals RemoveAssertions.matcher st).mappings
-      = some e := rfl
+  simp only [processExpressionOnce, hm, if_true]
+  have hc : ∀ ms, RemoveAssertions.matcher.computeResult kind [e] ms = some e := fun _ => rfl
   simp only [hc]
   rw [evalE_call_of_ret call ρ k env (.var "assert") kind [e] (lookupVar env "assert" σ) id σ (by simp [evalE]) hret]
   simp only [evalEs, id]
@@ -82,16 +198,15 @@ theorem assert_refines_expr_many (call : CallFn N) (ρ : ExtOracle N) (k : Nat) 
       = .builtin "select")
     (hone : N.toNat? (N.ofBits RemoveAssertions.oneBits) = some 1) :
     evalE call ρ (k + 2) env
-        (processExpression RemoveAssertions.matcher preserve (.call (.var "assert") none .tuple (a :: b :: rest)) st).1 σ
+        (processExpressionOnce RemoveAssertions.matcher preserve (.call (.var "assert") none .tuple (a :: b :: rest)) st).1 σ
       = evalE call ρ (k + 2) env (.call (.var "assert") none .tuple (a :: b :: rest)) σ := by
   have hm : RemoveAssertions.matcher.matchesPrefix (isUsed st.scopes) (.var "assert") = true := by
     simp [RemoveAssertions.matcher, RemoveAssertions.matchesPrefix, hns]
-  simp only [processExpression, hm, if_true]
-  have hc : RemoveAssertions.matcher.computeResult .tuple (a :: b :: rest)
-      (reserveGlobals RemoveAssertions.matcher st).mappings
-      = some (.call (.var (RemoveAssertions.selectName (reserveGlobals RemoveAssertions.matcher st).mappings)) none .tuple
-          (.num RemoveAssertions.oneBits :: a :: b :: rest)) := rfl
-  simp only [hc]
+  simp only [processExpressionOnce, hm, if_true]
+  have hc : ∀ ms, RemoveAssertions.matcher.computeResult .tuple (a :: b :: rest) ms
+      = some (.call (.var (RemoveAssertions.selectName ms)) none .tuple
+          (.num RemoveAssertions.oneBits :: a :: b :: rest)) := fun _ => rfl
+  simp only [hc, flagIf_mappings]
   rw [evalE_select_one call ρ k env _ RemoveAssertions.oneBits (a :: b :: rest) σ hsel hone]
   rw [evalE_call_of_ret call ρ (k + 2) env (.var "assert") .tuple (a :: b :: rest) (lookupVar env "assert" σ) id σ
     (by simp [evalE]) hret]
@@ -129,7 +244,7 @@ def assert_expr_full : Prop :=
     isUsed st.scopes "assert" = false →
     (∀ avs σ', evalEs call ρ (k + 2) env args σ = .ok avs σ' →
       callVal call ρ (k + 2) (lookupVar env "assert" σ) avs σ' = .ok avs σ') →
-    evalE call ρ (k + 2) env (processExpression RemoveAssertions.matcher true (.call (.var "assert") none .tuple args) st).1 σ
+    evalE call ρ (k + 2) env (processExpressionOnce RemoveAssertions.matcher true (.call (.var "assert") none .tuple args) st).1 σ
       = evalE call ρ (k + 2) env (.call (.var "assert") none .tuple args) σ
 
 /-- the state of the F18 witness: one closure; the call handler hands the arguments back -/
@@ -148,9 +263,8 @@ theorem assert_expr_full_false : ¬ assert_expr_full := by
       rfl)
   have hm : RemoveAssertions.matcher.matchesPrefix (isUsed ({} : St).scopes) (.var "assert") = true := by
     simp [RemoveAssertions.matcher, RemoveAssertions.matchesPrefix, isUsed]
-  have hc : RemoveAssertions.matcher.computeResult .tuple [] (reserveGlobals RemoveAssertions.matcher ({} : St)).mappings
-      = some .nil := rfl
-  simp only [processExpression, hm, if_true] at h0
+  have hc : ∀ ms, RemoveAssertions.matcher.computeResult .tuple [] ms = some .nil := fun _ => rfl
+  simp only [processExpressionOnce, hm, if_true] at h0
   simp only [hc] at h0
   revert h0
   simp [evalE, evalEs, Res.bind, lookupVar, lookupAssoc, witnessState, State.getCell, callVal, first]
@@ -166,31 +280,34 @@ theorem assert_refines_expr_partial (call : CallFn N) (ρ : ExtOracle N) (k : Na
     (hsel : lookupVar env (RemoveAssertions.selectName (reserveGlobals RemoveAssertions.matcher st).mappings) σ
       = .builtin "select")
     (hone : N.toNat? (N.ofBits RemoveAssertions.oneBits) = some 1) :
-    evalE call ρ (k + 2) env (processExpression RemoveAssertions.matcher true (.call (.var "assert") none .tuple args) st).1 σ
+    evalE call ρ (k + 2) env (processExpressionOnce RemoveAssertions.matcher true (.call (.var "assert") none .tuple args) st).1 σ
       = evalE call ρ (k + 2) env (.call (.var "assert") none .tuple args) σ := by
   match args, H with
   | [e], _ => exact assert_refines_expr_one call ρ (k + 2) env st true .tuple e σ hns hret
   | a :: b :: rest, _ => exact assert_refines_expr_many call ρ k env st true a b rest σ hns hret hsel hone
 
 -- non-vacuity: the hook fires and produces the three shapes
-example : (processExpression RemoveAssertions.matcher true (.call (.var "assert") none .tuple []) {}).1 = .nil := by
-  simp [processExpression, RemoveAssertions.matcher, RemoveAssertions.matchesPrefix, RemoveAssertions.computeResult, isUsed]
-example : (processExpression RemoveAssertions.matcher true (.call (.var "assert") none .tuple [.var "x"]) {}).1 = .var "x" := by
-  simp [processExpression, RemoveAssertions.matcher, RemoveAssertions.matchesPrefix, RemoveAssertions.computeResult, isUsed]
+example : (processExpression RemoveAssertions.matcher true (.call (.var "assert") none .tuple []) {}).1 = .nil := by rfl
+example : (processExpression RemoveAssertions.matcher true (.call (.var "assert") none .tuple [.var "x"]) {}).1 = .var "x" := by rfl
 -- `select` shadowed: the reserved alias is used
 example : (processExpression RemoveAssertions.matcher true (.call (.var "assert") none .tuple [.var "x", .var "y"])
       { scopes := [["select"]] }).1
-    = .call (.var (reservedName 1)) none .tuple [.num RemoveAssertions.oneBits, .var "x", .var "y"] := by
-  simp [processExpression, RemoveAssertions.matcher, RemoveAssertions.matchesPrefix, RemoveAssertions.computeResult,
-    RemoveAssertions.selectName, reserveGlobals, isUsed, lookupAssoc]
+    = .call (.var (reservedName 1)) none .tuple [.num RemoveAssertions.oneBits, .var "x", .var "y"] := by rfl
 -- statement position: a pure argument is dropped, two calls are kept in order inside `do … end`
 example : (processStatement RemoveAssertions.matcher true
       (.callStmt (.call (.var "assert") none .tuple
         [.call (.var "f") none .tuple [], .true, .paren (.call (.var "g") none .tuple [])])) {}).1
-    = .doBlock (.mk [.callStmt (.call (.var "f") none .tuple []), .callStmt (.call (.var "g") none .tuple [])] none) := by
-  simp [processStatement, RemoveAssertions.matcher, RemoveAssertions.matchesPrefix, isUsed, preserveArgumentsSideEffects,
-    argCandidates, List.filter, keeps_call, keeps_true, keeps_paren, expressionsAsStatement, asStatements, pushValue,
-    getInner, isCall]
+    = .doBlock (.mk [.callStmt (.call (.var "f") none .tuple []), .callStmt (.call (.var "g") none .tuple [])] none) := by rfl
+-- F30 regression: the loop removes a matched call that replaces a removed call (statement and expression)
+example : (processStatement RemoveAssertions.matcher true
+      (.callStmt (.call (.var "assert") none .tuple [.call (.var "assert") none .tuple [.false, .str []]])) {}).1
+    = .doBlock (.mk [] none) := by rfl
+example : (processExpression RemoveAssertions.matcher true
+      (.call (.var "assert") none .tuple [.call (.var "assert") none .tuple [.var "x"]]) {}).1 = .var "x" := by rfl
+-- F31 regression: a lone kept non-call argument is wrapped in `do … end`
+example : (processStatement RemoveAssertions.matcher true
+      (.callStmt (.call (.var "assert") none .tuple [.field (.var "t") "x"])) {}).1
+    = .doBlock (.mk [.localAssign .loc [.mk "_" none] [.field (.var "t") "x"]] none) := by rfl
 -- the hypotheses of `assert_refines` are met by a concrete instance: `assert` is a global holding a
 -- closure, the call handler hands the arguments back, one argument is an external call, one is pure
 example :
@@ -198,7 +315,7 @@ example :
     let σ0 : State unitOps := { witnessState with globals := [("assert", .fn 0), ("f", .builtin "f")] }
     let args : List Expr := [.call (.var "f") none .tuple [], .true]
     execS call (fun _ _ _ => []) 2 ⟨[], []⟩
-        (processStatement RemoveAssertions.matcher true (.callStmt (.call (.var "assert") none .tuple args)) {}).1 σ0
+        (processStatementOnce RemoveAssertions.matcher true (.callStmt (.call (.var "assert") none .tuple args)) {}).1 σ0
       = execS call (fun _ _ _ => []) 2 ⟨[], []⟩ (.callStmt (.call (.var "assert") none .tuple args)) σ0 := by
   intro call σ0 args
   apply assert_refines
@@ -220,21 +337,25 @@ example :
     · simp [getInner, isCall]
     · simp [keeps_true] at hk
 
-/-! ### F31: a single kept non-call argument becomes a bare `local _ = …` -/
+/-! ### kept arguments that are not calls: `do local _ = … end`
 
-/-- full-strength statement-position claim without the `hcalls` hypothesis -/
-def assert_stmt_full : Prop :=
+F31 (the bare `local _ = …` leaking into the enclosing block) is fixed: `removed_call_keeps_env` above.
+Exact equality of states is still not available for this shape, for a harmless reason: the `local`
+allocates a cell that the original call does not (invisible to the observable outcome; the harness
+checks these programs through the oracle). -/
+
+/-- statement-position claim without the `hcalls` hypothesis, as EXACT equality of states -/
+def assert_stmt_exact : Prop :=
   ∀ (N : NumOps) (call : CallFn N) (ρ : ExtOracle N) (k : Nat) (env : Env N) (st : St) (args : List Expr) (σ : State N),
     isUsed st.scopes "assert" = false →
     (∀ avs σ', evalEs call ρ k env args σ = .ok avs σ' → callVal call ρ k (lookupVar env "assert" σ) avs σ' = .ok avs σ') →
     (∀ e ∈ args, keeps e = false → PureAt call ρ k env e) →
     execS call ρ k env
-        (processStatement RemoveAssertions.matcher true (.callStmt (.call (.var "assert") none .tuple args)) st).1 σ
+        (processStatementOnce RemoveAssertions.matcher true (.callStmt (.call (.var "assert") none .tuple args)) st).1 σ
       = execS call ρ k env (.callStmt (.call (.var "assert") none .tuple args)) σ
 
-/-- F31 (`underscore_leak`): `assert(t.x)` becomes `local _ = t.x`, which changes the environment of
-the statements that follow (and allocates a cell): not the same denotation. -/
-theorem assert_stmt_full_false : ¬ assert_stmt_full := by
+/-- not exact, only because of the allocated cell (the control outcome `.next env` is the same) -/
+theorem assert_stmt_exact_false_by_allocation : ¬ assert_stmt_exact := by
   intro h
   have h0 := h unitOps (fun _ args σ => .ok args σ) (fun _ _ _ => []) 1 ⟨[("assert", 0)], []⟩ {}
     [.un .len (.var "s")]
@@ -252,12 +373,12 @@ theorem assert_stmt_full_false : ¬ assert_stmt_full := by
       simp [keeps, hasSideEffects, evaluate, LuaValue.isUnknown] at hk)
   have hm : RemoveAssertions.matcher.matchesPrefix (isUsed ({} : St).scopes) (.var "assert") = true := by
     simp [RemoveAssertions.matcher, RemoveAssertions.matchesPrefix, isUsed]
-  simp only [processStatement, hm, if_true] at h0
+  simp only [processStatementOnce, hm, if_true] at h0
   revert h0
   simp [preserveArgumentsSideEffects, argCandidates, keeps, hasSideEffects, evaluate, evalUnary, LuaValue.isUnknown,
-    expressionsAsStatement, asStatements, pushValue, getInner, isCall, execS, evalEs, evalE, Res.bind, lookupVar,
-    lookupAssoc, witnessState, State.getCell, State.getGlobal, callVal, first, unopVal, bindLocals, State.allocCell,
-    TName.name]
+    expressionsAsStatement, asStatements, pushValue, getInner, isCall, wrapLocal, execS, execB, execSs, evalEs, evalE, Res.bind,
+    lookupVar, lookupAssoc, witnessState, State.getCell, State.getGlobal, callVal, first, unopVal, bindLocals,
+    State.allocCell, TName.name]
 
 /-! ## remove_debug_profiling -/
 
@@ -272,70 +393,65 @@ theorem profiling_refines (call : CallFn N) (ρ : ExtOracle N) (k : Nat) (env : 
     (hdrop : ∀ e ∈ args, keeps e = false → PureAt call ρ k env e)
     (hcalls : ∀ e ∈ args, keeps e = true → isCall (getInner e) = true) :
     execS call ρ k env
-        (processStatement RemoveDebugProfiling.matcher true
+        (processStatementOnce RemoveDebugProfiling.matcher true
           (.callStmt (.call (.field (.var "debug") fname) none .tuple args)) st).1 σ
       = execS call ρ k env (.callStmt (.call (.field (.var "debug") fname) none .tuple args)) σ := by
   have hm : RemoveDebugProfiling.matcher.matchesPrefix (isUsed st.scopes) (.field (.var "debug") fname) = true := by
     rcases hname with h | h <;> simp [RemoveDebugProfiling.matcher, RemoveDebugProfiling.matchesPrefix, hns, h]
-  simp only [processStatement, hm, if_true]
+  have hk : ∀ e ∈ preserveArgumentsSideEffects .tuple args, isCall (getInner e) = true := by
+    intro e he
+    simp only [preserveArgumentsSideEffects, argCandidates, List.mem_filter] at he
+    exact hcalls e he.1 he.2
+  simp only [processStatementOnce, hm, if_true]
+  rw [wrapLocal_calls _ hk]
   exact execS_removed_call call ρ k env _ args fv ret σ hf hret hdrop hcalls
 
-/-- the full-strength claim about `expressions_as_expression`: the expressions are evaluated once
+/-- `expressions_as_expression` (full strength after the F32 fix): the expressions are evaluated once
 each, in order, and the value is `nil` (what a call returning nothing yields in a single-value context) -/
-def expressions_as_expression_full : Prop :=
-  ∀ (N : NumOps) (call : CallFn N) (ρ : ExtOracle N) (k : Nat) (env : Env N) (es : List Expr) (σ : State N),
-    evalE call ρ k env (.paren (expressionsAsExpression es)) σ
-      = (evalDiscard call ρ k env es σ).bind fun _ σ' => .ok [.nil] σ'
-
-/-- F32: with exactly one expression the encoding is `e and nil`, which is `false` when `e` is `false`. -/
-theorem expressions_as_expression_full_false : ¬ expressions_as_expression_full := by
-  intro h
-  have h0 := h unitOps (fun _ args σ => .ok args σ) (fun _ _ _ => []) 0 ⟨[], []⟩ [.false] witnessState
-  revert h0
-  simp [expressionsAsExpression, evalE, evalDiscard, Res.bind, first, Val.truthy]
-
-/-- partial: any number of expressions but one (decidable; the driver's flag `single-kept-expr`) -/
-theorem expressions_as_expression_partial (call : CallFn N) (ρ : ExtOracle N) (k : Nat) (env : Env N)
-    (es : List Expr) (σ : State N) (H : es.length ≠ 1) :
+theorem expressions_as_expression_exact (call : CallFn N) (ρ : ExtOracle N) (k : Nat) (env : Env N)
+    (es : List Expr) (σ : State N) :
     evalE call ρ k env (.paren (expressionsAsExpression es)) σ
       = (evalDiscard call ρ k env es σ).bind fun _ σ' => .ok [.nil] σ' := by
-  rw [expressionsAsExpression_of_length_ne_one es H]
+  rw [expressionsAsExpression_eq_chain]
   simp only [evalE]
   rw [evalE_orTrueChain, bind_assoc]
   rfl
 
+-- F32 regression: the old witness `[false]` now yields `nil`
+example (call : CallFn N) (ρ : ExtOracle N) (k : Nat) (env : Env N) (σ : State N) :
+    evalE call ρ k env (.paren (expressionsAsExpression [.false])) σ = .ok [.nil] σ := by
+  rw [expressions_as_expression_exact]
+  simp [evalDiscard, evalE, Res.bind]
+
 /-- EXPRESSION position in a single-value context: the profiling call becomes the `(e or true) and …`
 chain — kept arguments evaluated once each, in order, value `nil` — when the callee returns nothing
-and the number of kept arguments is not one (F32). In a multi-value context the rewrite yields one
-`nil` where the call yields no value (F33, the F18 shape). -/
-theorem profiling_refines_expr_partial (call : CallFn N) (ρ : ExtOracle N) (k : Nat) (env : Env N) (st : St)
+(any number of kept arguments, after the F32 fix). In a multi-value context the rewrite yields one
+`nil` where the call yields no value (F33, the F18 shape): hence the parentheses on both sides. -/
+theorem profiling_refines_expr (call : CallFn N) (ρ : ExtOracle N) (k : Nat) (env : Env N) (st : St)
     (fname : String) (hname : fname = "profilebegin" ∨ fname = "profileend")
     (args : List Expr) (fv : Val N) (σ : State N)
-    (H : (preserveArgumentsSideEffects .tuple args).length ≠ 1)
     (hns : isUsed st.scopes "debug" = false)
     (hf : evalE call ρ k env (.field (.var "debug") fname) σ = .ok [fv] σ)
     (hret : ∀ avs σ', evalEs call ρ k env args σ = .ok avs σ' → callVal call ρ k fv avs σ' = .ok [] σ')
     (hdrop : ∀ e ∈ args, keeps e = false → PureAt call ρ k env e) :
-    evalE call ρ k env (.paren (processExpression RemoveDebugProfiling.matcher true
+    evalE call ρ k env (.paren (processExpressionOnce RemoveDebugProfiling.matcher true
         (.call (.field (.var "debug") fname) none .tuple args) st).1) σ
       = evalE call ρ k env (.paren (.call (.field (.var "debug") fname) none .tuple args)) σ := by
   have hm : RemoveDebugProfiling.matcher.matchesPrefix (isUsed st.scopes) (.field (.var "debug") fname) = true := by
     rcases hname with h | h <;> simp [RemoveDebugProfiling.matcher, RemoveDebugProfiling.matchesPrefix, hns, h]
-  have hc : RemoveDebugProfiling.matcher.computeResult .tuple args (reserveGlobals RemoveDebugProfiling.matcher st).mappings
-      = none := rfl
-  simp only [processExpression, hm, if_true, hc]
-  exact evalE_paren_removed_call call ρ k env _ args fv σ hf hret hdrop H
+  have hc : ∀ ms, RemoveDebugProfiling.matcher.computeResult .tuple args ms = none := fun _ => rfl
+  simp only [processExpressionOnce, hm, if_true, hc]
+  exact evalE_paren_removed_call call ρ k env _ args fv σ hf hret hdrop
 
--- non-vacuity: two kept arguments give the chain, in order
+-- non-vacuity: two kept arguments give the chain, in order; one kept argument gives `(e or true) and nil`
 example : (processExpression RemoveDebugProfiling.matcher true
       (.call (.field (.var "debug") "profilebegin") none .tuple
         [.call (.var "f") none .tuple [], .str [], .call (.var "g") none .tuple []]) {}).1
     = .bin .and (.bin .or (.call (.var "f") none .tuple []) .true)
-        (.bin .and (.bin .or (.call (.var "g") none .tuple []) .true) .nil) := by
-  simp [processExpression, RemoveDebugProfiling.matcher, RemoveDebugProfiling.matchesPrefix, isUsed,
-    preserveArgumentsSideEffects, argCandidates, List.filter, keeps_call, keeps_str, expressionsAsExpression, orTrueChain]
-example : (preserveArgumentsSideEffects .tuple [.call (.var "f") none .tuple [], .str [], .call (.var "g") none .tuple []]).length ≠ 1 := by
-  simp [preserveArgumentsSideEffects, argCandidates, List.filter, keeps_call, keeps_str]
+        (.bin .and (.bin .or (.call (.var "g") none .tuple []) .true) .nil) := by rfl
+example : (processExpression RemoveDebugProfiling.matcher true
+      (.call (.field (.var "debug") "profilebegin") none .tuple [.call (.var "f") none .tuple []]) {}).1
+    = .bin .and (.bin .or (.call (.var "f") none .tuple []) .true) .nil := by rfl
 
 /-! ## inject_global_value -/
 open Rules.InjectValue in
@@ -355,43 +471,28 @@ theorem inject_refines (call : CallFn N) (ρ : ExtOracle N) (k : Nat) (env : Env
   · rfl
 
 open Rules.InjectValue in
-/-- the full-strength PREFIX-position claim: under the scope invariant (the tracker knows exactly the
-locals), a global preset to `v` and a value expression evaluating to `v` -/
-def inject_prefix_full : Prop :=
-  ∀ (N : NumOps) (call : CallFn N) (ρ : ExtOracle N) (k : Nat) (env : Env N) (st : InjectValue.St)
-    (ident : String) (value : Expr) (v : Val N) (σ : State N),
-    isUsed st.scopes ident = (lookupAssoc ident env.locals).isSome →
-    σ.getGlobal ident = v →
-    evalE call ρ k env value σ = .ok [v] σ →
-    evalE call ρ k env (processPrefix ident value (.var ident) st).1 σ = evalE call ρ k env (.var ident) σ
-
-open Rules.InjectValue in
-/-- F19: the prefix hook does not consult the tracker — a shadowing local is replaced too. -/
-theorem inject_prefix_full_false : ¬ inject_prefix_full := by
-  intro h
-  have h0 := h unitOps (fun _ args σ => .ok args σ) (fun _ _ _ => []) 0 ⟨[("DEBUG", 0)], []⟩
-    { scopes := [["DEBUG"]] } "DEBUG" .nil .nil witnessState
-    (by simp [isUsed, lookupAssoc])
-    (by simp [State.getGlobal, lookupAssoc, witnessState])
-    (by simp [evalE])
-  revert h0
-  simp [processPrefix, evalE, Res.bind, lookupVar, lookupAssoc, witnessState, State.getCell, first]
-
-open Rules.InjectValue in
-/-- partial: the identifier is not tracked (decidable; the driver's flag `shadowed-prefix`) -/
-theorem inject_prefix_partial (call : CallFn N) (ρ : ExtOracle N) (k : Nat) (env : Env N) (st : InjectValue.St)
+/-- PREFIX position (full strength after the F19 fix): under the scope invariant (the tracker knows
+exactly the locals), a global preset to `v` and a value expression evaluating to `v`, the node the
+prefix hook returns evaluates like the identifier — whether or not a local shadows it. -/
+theorem inject_prefix_refines (call : CallFn N) (ρ : ExtOracle N) (k : Nat) (env : Env N) (st : InjectValue.St)
     (ident : String) (value : Expr) (v : Val N) (σ : State N)
-    (H : isUsed st.scopes ident = false)
     (hinv : isUsed st.scopes ident = (lookupAssoc ident env.locals).isSome)
     (hglobal : σ.getGlobal ident = v)
     (hval : evalE call ρ k env value σ = .ok [v] σ) :
     evalE call ρ k env (processPrefix ident value (.var ident) st).1 σ = evalE call ρ k env (.var ident) σ := by
-  have hl : lookupAssoc ident env.locals = none := by
-    rw [H] at hinv
-    cases h : lookupAssoc ident env.locals with
-    | none => rfl
-    | some c => rw [h] at hinv; simp at hinv
-  simp [processPrefix, evalE, hval, Res.bind, lookupVar, hl, hglobal, first]
+  by_cases H : isUsed st.scopes ident = true
+  · simp [processPrefix, H]
+  · have H' : isUsed st.scopes ident = false := by simpa using H
+    have hl : lookupAssoc ident env.locals = none := by
+      rw [H'] at hinv
+      cases h : lookupAssoc ident env.locals with
+      | none => rfl
+      | some c => rw [h] at hinv; simp at hinv
+    simp [processPrefix, H', evalE, hval, Res.bind, lookupVar, hl, hglobal, first]
+
+-- F19 regression: the old witness (a shadowing local in prefix position) is left alone
+example : (InjectValue.processPrefix "DEBUG" .nil (.var "DEBUG") { scopes := [["DEBUG"]] }).1 = .var "DEBUG" := by rfl
+example : (InjectValue.processPrefix "DEBUG" .true (.var "DEBUG") { scopes := [["other"]] }).1 = .paren .true := by rfl
 
 -- non-vacuity: the three expression shapes are replaced, and a literal value meets `hval`
 example : (InjectValue.processExpression "DEBUG" .true (.var "DEBUG") {}).1 = .true := by
@@ -400,8 +501,6 @@ example : (InjectValue.processExpression "DEBUG" .true (.field (.var "_G") "DEBU
   simp [InjectValue.processExpression, InjectValue.shouldReplace, InjectValue.isVarNamed, isUsed]
 example : (InjectValue.processExpression "DEBUG" .true (.index (.var "_G") (.str "DEBUG".toUTF8.toList)) {}).1 = .true := by
   simp [InjectValue.processExpression, InjectValue.shouldReplace, InjectValue.isVarNamed, isUsed]
-example : (InjectValue.processPrefix "DEBUG" .true (.var "DEBUG") { scopes := [["DEBUG"]] }).1 = .paren .true := by
-  simp [InjectValue.processPrefix]
 example (call : CallFn N) (ρ : ExtOracle N) (k : Nat) (env : Env N) (σ : State N) :
     evalE call ρ k env .true σ = .ok [.bool true] σ := rfl
 
@@ -411,7 +510,7 @@ example (call : CallFn N) (ρ : ExtOracle N) (k : Nat) (env : Env N) (σ : State
 * remove_assertions / remove_debug_profiling leave every statement and expression alone while
   `assert` / `debug` is tracked; calls through a field of another table (`t.assert(…)`,
   `t.debug.profilebegin(…)`) and method calls are never matched;
-* inject_global_value leaves the identifier alone in expression position while it is tracked,
+* inject_global_value leaves the identifier alone in expression AND prefix position while it is tracked,
   `_G.NAME` / `_G["NAME"]` while `_G` is tracked, and never touches a field `t.NAME` of another table. -/
 theorem shadowed_untouched (st : St) (ist : InjectValue.St) (preserve : Bool) (ident : String) (value : Expr) :
     (isUsed st.scopes "assert" = true →
@@ -432,47 +531,55 @@ theorem shadowed_untouched (st : St) (ist : InjectValue.St) (preserve : Bool) (i
       (processExpression RemoveAssertions.matcher preserve (.call f (some m) kind args) st).1 = .call f (some m) kind args ∧
       (processExpression RemoveDebugProfiling.matcher preserve (.call f (some m) kind args) st).1 = .call f (some m) kind args) ∧
     (isUsed ist.scopes ident = true → (InjectValue.processExpression ident value (.var ident) ist).1 = .var ident) ∧
+    (isUsed ist.scopes ident = true → (InjectValue.processPrefix ident value (.var ident) ist).1 = .var ident) ∧
     (isUsed ist.scopes "_G" = true → ∀ p x y,
       (InjectValue.processExpression ident value (.field p x) ist).1 = .field p x ∧
       (InjectValue.processExpression ident value (.index p y) ist).1 = .index p y) ∧
     (∀ p x, p ≠ .var "_G" → (InjectValue.processExpression ident value (.field p x) ist).1 = .field p x) := by
-  refine ⟨?_, ?_, ?_, ?_, ?_, ?_, ?_, ?_⟩
+  have notS : ∀ (M : Matcher), (∀ f, M.matchesPrefix (isUsed st.scopes) f = false) → ∀ s, stmtMatched M st s = false := by
+    intro M hm s
+    unfold stmtMatched
+    split <;> simp [hm]
+  have notE : ∀ (M : Matcher), (∀ f, M.matchesPrefix (isUsed st.scopes) f = false) → ∀ e, exprMatched M st e = false := by
+    intro M hm e
+    unfold exprMatched
+    split <;> simp [hm]
+  refine ⟨?_, ?_, ?_, ?_, ?_, ?_, ?_, ?_, ?_⟩
   · intro hu
     have hm : ∀ f, RemoveAssertions.matcher.matchesPrefix (isUsed st.scopes) f = false := by
       intro f; simp [RemoveAssertions.matcher, RemoveAssertions.matchesPrefix, hu]
-    constructor
-    · intro s
-      unfold processStatement
-      split <;> simp [hm]
-    · intro e
-      unfold processExpression
-      split <;> simp [hm]
+    exact ⟨fun s => by rw [processStatement_of_not_matched _ _ _ _ (notS _ hm s)],
+      fun e => by rw [processExpression_of_not_matched _ _ _ _ (notE _ hm e)]⟩
   · intro hu
     have hm : ∀ f, RemoveDebugProfiling.matcher.matchesPrefix (isUsed st.scopes) f = false := by
       intro f; simp [RemoveDebugProfiling.matcher, RemoveDebugProfiling.matchesPrefix, hu]
-    constructor
-    · intro s
-      unfold processStatement
-      split <;> simp [hm]
-    · intro e
-      unfold processExpression
-      split <;> simp [hm]
+    exact ⟨fun s => by rw [processStatement_of_not_matched _ _ _ _ (notS _ hm s)],
+      fun e => by rw [processExpression_of_not_matched _ _ _ _ (notE _ hm e)]⟩
   · intro t name kind args m
     have hm : RemoveAssertions.matcher.matchesPrefix (isUsed st.scopes) (.field t name) = false := by
       simp only [RemoveAssertions.matcher, RemoveAssertions.matchesPrefix]
       split <;> rfl
-    cases m <;> simp [processExpression, processStatement, hm]
+    have h1 : exprMatched RemoveAssertions.matcher st (.call (.field t name) m kind args) = false := by
+      cases m <;> simp [exprMatched, hm]
+    have h2 : stmtMatched RemoveAssertions.matcher st (.callStmt (.call (.field t name) m kind args)) = false := by
+      cases m <;> simp [stmtMatched, hm]
+    exact ⟨by rw [processExpression_of_not_matched _ _ _ _ h1], by rw [processStatement_of_not_matched _ _ _ _ h2]⟩
   · intro t name kind args m ht
     have hm : RemoveDebugProfiling.matcher.matchesPrefix (isUsed st.scopes) (.field t name) = false := by
       simp only [RemoveDebugProfiling.matcher, RemoveDebugProfiling.matchesPrefix]
       split
       · rfl
       · cases t <;> simp_all
-    cases m <;> simp [processExpression, hm]
+    have h1 : exprMatched RemoveDebugProfiling.matcher st (.call (.field t name) m kind args) = false := by
+      cases m <;> simp [exprMatched, hm]
+    rw [processExpression_of_not_matched _ _ _ _ h1]
   · intro f kind args m
-    simp [processExpression]
+    exact ⟨by rw [processExpression_of_not_matched _ _ _ _ (by simp [exprMatched])],
+      by rw [processExpression_of_not_matched _ _ _ _ (by simp [exprMatched])]⟩
   · intro hu
     simp [InjectValue.processExpression, InjectValue.shouldReplace, hu]
+  · intro hu
+    simp [InjectValue.processPrefix, hu]
   · intro hu p x y
     constructor
     · simp [InjectValue.processExpression, InjectValue.shouldReplace, hu]
@@ -487,12 +594,9 @@ theorem shadowed_untouched (st : St) (ist : InjectValue.St) (preserve : Bool) (i
 
 -- non-vacuity: a tracked name really blocks a rewrite that would otherwise happen
 example : (processStatement RemoveAssertions.matcher true (.callStmt (.call (.var "assert") none .tuple [])) { scopes := [[], ["assert"]] }).1
-    = .callStmt (.call (.var "assert") none .tuple []) := by
-  simp [processStatement, RemoveAssertions.matcher, RemoveAssertions.matchesPrefix, isUsed]
+    = .callStmt (.call (.var "assert") none .tuple []) := by rfl
 example : (processStatement RemoveAssertions.matcher true (.callStmt (.call (.var "assert") none .tuple [])) { scopes := [[], ["other"]] }).1
-    = .doBlock (.mk [] none) := by
-  simp [processStatement, RemoveAssertions.matcher, RemoveAssertions.matchesPrefix, isUsed, preserveArgumentsSideEffects,
-    argCandidates, expressionsAsStatement, asStatements]
+    = .doBlock (.mk [] none) := by rfl
 
 /-! ## whole-rule examples, evaluated by the kernel on the models the driver runs
 
@@ -542,25 +646,95 @@ example : (RemoveAssertions.apply true (.mk [.localAssign .loc [.mk "select" non
 -- F18 on the whole rule: `return f(assert())` becomes `return f(nil)`
 example : (RemoveAssertions.apply true (.mk [] (some (.ret [.call (.var "f") none .tuple [.call (.var "assert") none .tuple []]])))).1
     = .mk [] (some (.ret [.call (.var "f") none .tuple [.nil]])) := by rfl
--- F30 on the whole rule: `assert(assert(false))` keeps a real assertion
+-- F30 regression on the whole rule: `assert(assert(false))` is removed entirely
 example : run [.callStmt (.call (.var "assert") none .tuple [.call (.var "assert") none .tuple [.false]])]
-    = .mk [.callStmt (.call (.var "assert") none .tuple [.false])] none := by rfl
--- F19 on the whole rule: `local DEBUG = {} DEBUG.x()` becomes `local DEBUG = {} (true).x()`
+    = .mk [gone] none := by rfl
+-- F19 regression on the whole rule: `local DEBUG = {} DEBUG.x()` is left alone, a global prefix occurrence is replaced
 example : InjectValue.apply "DEBUG" .true
-      (.mk [.localAssign .loc [.mk "DEBUG" none] [.table []], .callStmt (.call (.field (.var "DEBUG") "x") none .tuple [])] none)
-    = .mk [.localAssign .loc [.mk "DEBUG" none] [.table []], .callStmt (.call (.field (.paren .true) "x") none .tuple [])] none := by rfl
+      (.mk [.callStmt (.call (.field (.var "DEBUG") "x") none .tuple []), .localAssign .loc [.mk "DEBUG" none] [.table []],
+            .callStmt (.call (.field (.var "DEBUG") "x") none .tuple [])] none)
+    = .mk [.callStmt (.call (.field (.paren .true) "x") none .tuple []), .localAssign .loc [.mk "DEBUG" none] [.table []],
+           .callStmt (.call (.field (.var "DEBUG") "x") none .tuple [])] none := by rfl
 -- … while in expression position the shadowed occurrence is left alone and the global one replaced
 example : InjectValue.apply "DEBUG" .true
       (.mk [.callStmt (.call (.var "emit") none .tuple [.var "DEBUG"]), .localAssign .loc [.mk "DEBUG" none] [.nil],
             .callStmt (.call (.var "emit") none .tuple [.var "DEBUG"])] none)
     = .mk [.callStmt (.call (.var "emit") none .tuple [.true]), .localAssign .loc [.mk "DEBUG" none] [.nil],
            .callStmt (.call (.var "emit") none .tuple [.var "DEBUG"])] none := by rfl
--- the defect flags the driver reports for the two witnesses
+-- the flags the driver reports: F18 still listed, the fixed F19 no longer, a write to the global
 example : defects (.removeAssertions true) (.mk [] (some (.ret [.call (.var "f") none .tuple [.call (.var "assert") none .tuple []]])))
     = ["zero-arg-expr"] := by rfl
 example : defects (.injectGlobalValue "DEBUG" .true)
       (.mk [.localAssign .loc [.mk "DEBUG" none] [.table []], .callStmt (.call (.field (.var "DEBUG") "x") none .tuple [])] none)
-    = ["shadowed-prefix"] := by rfl
+    = [] := by rfl
+example : defects (.injectGlobalValue "DEBUG" .true) (.mk [.assign [.var "DEBUG"] [.nil]] none) = ["global-write"] := by rfl
 end whole
+
+/-! ## whole-rule theorem through the stage-3 lifting theorem (`Shared/VisitorSoundHeap.lean`)
+
+`inject_refines_whole`: for every program that never declares or assigns the injected name (decidable
+`NoRefB [.wat ident] b`; closures, loops, any other shadowing allowed), a literal value, every number
+system, oracle and call level — the output of the rule's own `apply` has the same observable outcome
+as the input, started in a state where the global is preset to the value. Side condition `hsame`: on
+this program the rule's run coincides with the run of the identifier-only processor
+(`Whole.processorVar`), i.e. no unshadowed `_G.NAME` / `_G["NAME"]` is rewritten — those shapes are
+outside stage 3: the original spends `indexVal` fuel and reads a table that no context fact describes.
+
+NOT obtained: `assert_refines_whole`, `profiling_refines_whole`. Stage 3 relates runs with IDENTICAL
+timeouts for every fuel `k` and call level, and its context facts fix the VALUES of watched globals.
+Removing a call changes fuel use (`assert(e)` times out at `k = 0` and on the last call level, `e`
+does not; `debug.profilebegin()` spends `indexVal` fuel), and "the value of `assert` hands its
+arguments back when called" is a property of the abstract call handler, not of a global's value. An
+up-to-timeout variant of stage 3 with facts about calling a watched global would be needed; the local
+theorems above stay the statement for these two rules, and for every program that shadows a name. -/
+
+open Whole in
+theorem inject_refines_whole (ident : String) (value : Expr) (hl : isLit value = true) (b : Block)
+    (hb : NoRefB [.wat ident] b)
+    (hsame : InjectValue.apply ident value b = applyVar ident value b)
+    {N : NumOps} (ρ : ExtOracle N) (n : Nat) (σ : State N)
+    (hd : σ.getGlobal ident = litVal N value) (hc : σ.cells = []) (hcl : σ.closures = []) :
+    observe (runChunk ρ n (InjectValue.apply ident value b) σ) = observe (runChunk ρ n b σ) := by
+  rw [hsame]
+  exact applyVar_refines ident value hl b hb ρ n σ hd hc hcl
+
+open Whole in
+/-- the same with the modified environment installed on the initial state of a run: the global is preset -/
+theorem inject_refines_whole_preset (ident : String) (value : Expr) (hl : isLit value = true) (b : Block)
+    (hb : NoRefB [.wat ident] b)
+    (hsame : InjectValue.apply ident value b = applyVar ident value b)
+    {N : NumOps} (ρ : ExtOracle N) (n : Nat) (externs : List String) :
+    observe (runChunk ρ n (InjectValue.apply ident value b) ((initState externs).setGlobal ident (litVal N value)))
+      = observe (runChunk ρ n b ((initState externs).setGlobal ident (litVal N value))) :=
+  inject_refines_whole ident value hl b hb hsame ρ n _
+    (by simp [State.getGlobal, State.setGlobal, lookupAssoc_setAssoc_self]) rfl rfl
+
+section wholeExamples
+open Whole
+/-- `local function f(x) if DEBUG then emit(x, DEBUG) end end; f(1); emit(DEBUG.y); do local other = DEBUG end` -/
+private def sample : Block :=
+  .mk [.localFn .loc "f" (.mk [.mk "x" none] false none none [] []
+         (.mk [.ifs [(.var "DEBUG", .mk [.callStmt (.call (.var "emit") none .tuple [.var "x", .var "DEBUG"])] none)] none] none)),
+       .callStmt (.call (.var "f") none .tuple [.num 1]),
+       .callStmt (.call (.var "emit") none .tuple [.field (.var "DEBUG") "y"]),
+       .doBlock (.mk [.localAssign .loc [.mk "other" none] [.var "DEBUG"]] none)] none
+
+-- non-vacuity: the hypotheses hold for the sample and the rule really rewrites it (expression and prefix position)
+example : isLit (.str [100]) = true := rfl
+example : NoRefB [.wat "DEBUG"] sample := NoRefB.ofBool rfl
+example : InjectValue.apply "DEBUG" (.str [100]) sample = applyVar "DEBUG" (.str [100]) sample := by rfl
+example : InjectValue.apply "DEBUG" (.str [100]) sample =
+    .mk [.localFn .loc "f" (.mk [.mk "x" none] false none none [] []
+           (.mk [.ifs [(.str [100], .mk [.callStmt (.call (.var "emit") none .tuple [.var "x", .str [100]])] none)] none] none)),
+         .callStmt (.call (.var "f") none .tuple [.num 1]),
+         .callStmt (.call (.var "emit") none .tuple [.field (.paren (.str [100])) "y"]),
+         .doBlock (.mk [.localAssign .loc [.mk "other" none] [.str [100]]] none)] none := by rfl
+-- a program that declares the name is outside the theorem (the local theorems cover it)
+example : ¬ NoRefB [.wat "DEBUG"] (.mk [.localAssign .loc [.mk "DEBUG" none] [.nil]] none) := by
+  intro h
+  have := h (.wat "DEBUG") (by simp)
+  revert this
+  decide
+end wholeExamples
 
 end DarkluaModel.C17
